@@ -77,7 +77,16 @@ def run(ctx):
     for ap in base:
         line, order, parent = scen_tree(ctx.rng)
         ap2 = copy.deepcopy(ap)
-        ap2["dur"] = ("w", 16)           # long enough that the horizon does not depend on the efforts of scenario 0
+        # usually long enough that the horizon does not depend on the efforts; every fourth project keeps a
+        # short window, so that the horizon is extended from the efforts (of the first scenario): the first
+        # scenario must then still equal the single-scenario project, horizon included
+        short = len(multi) % 4 == 3
+        ap2["dur"] = ("w", 1) if short else ("w", 16)
+        if short:
+            for _, nn in projects.walk(ap2["tasks"]):
+                if nn.get("effort"):
+                    nn["effort"] = ctx.rng.choice([480, 960, 1440, 2400])
+                nn.pop("start", None)
         ap2["scenario_lines"] = [line]
         overrides = {}
         leaves = [(p, n) for p, n in projects.walk(ap2["tasks"]) if "kids" not in n and n.get("effort")]
@@ -120,7 +129,13 @@ def run(ctx):
                 continue
             a, b = scs[0], one["obs"]["scenarios"][0]
             if r["obs"]["end"] != one["obs"]["end"]:
-                stats["horizon_differs(skipped)"] += 1      # the horizon is computed from the first scenario's efforts
+                if si == 0:
+                    # the first scenario's efforts determine the horizon in both runs: declaring further scenarios
+                    # must not move the project end
+                    bad.append({"what": "declaring additional scenarios changed the scheduling horizon of the first scenario",
+                                "horizon_multi": r["obs"]["end"], "horizon_single": one["obs"]["end"], "project": projects.render(ap2)})
+                else:
+                    stats["horizon_differs(skipped)"] += 1  # the horizon is computed from the first scenario's efforts
                 continue
             stats["compared"] += 1
             diff = {t: [[a["tasks"][t]["sched"], a["tasks"][t]["start"], a["tasks"][t]["end"]], [b["tasks"][t]["sched"], b["tasks"][t]["start"], b["tasks"][t]["end"]]]
